@@ -36,7 +36,7 @@ ENV.pop("RUSTUP_TOOLCHAIN", None)
 ENV["KV_HARNESS_DIR"] = HARNESS_DIR
 ENV["RUSTFLAGS"] = (ENV.get("RUSTFLAGS", "") + " --cfg kira_verif").strip()
 
-KANI_BASE = ["cargo", "kani", "--no-default-features", "--lib", "-Z", "unstable-options", "-Z", "stubbing"]
+KANI_BASE = ["cargo", "kani", "--no-default-features", "--lib", "-Z", "unstable-options", "-Z", "stubbing"] + os.environ.get("KV_EXTRA_KANI_ARGS", "").split()
 
 DEFAULT_TIMEOUT = {"quick": 300, "thorough": 1800}
 MEM_LIMIT_KB = int(os.environ.get("KV_MEM_KB", str(14 * 1024 * 1024)))
